@@ -25,6 +25,9 @@ CLAIMED = {
  "C16": ("7/C16", "CFG edge-cut guard entailment with interval-normalised atoms per RPC handler and table-layer method, interprocedural validator rule, status-code constant facts, registration type facts, crash-surface ownership table, request/response type-table agreement",
          "Structural necessary conditions only: request-shape guards and their codes for all five KV RPCs, size limits on every proposing path including puts nested in both transaction branches, error-edge mapping (unknown table -> NotFound, no swallowed error), read-only/forwarding registration on the follower, and the explicit crash surface (panics, unchecked assertions) on request paths against a reviewed table plus Lookup type-table agreement. Absence of all runtime panics is not decided.",
          "go/types+go/ssa; grpc status/codes API; reviewed crash-surface table in checker/c16.go"),
+ "C07": ("7/C07", "decoded-value-must-be-consumed path rule (node cut with presence exemption), ordering rules on the stream handler, provenance of dump reader / terminator index / proposal payload, guard entailment on the checksum comparison",
+         "Structural necessary conditions only: no decoded record bypasses the batch, batch cleared only after marshal, final proposal before success, proposal errors returned; dump reads one snapshot; terminator with the dump's index written after the dump and before copy-out and forwarded by the loader; exactly the user pairs are exported; catalogue switch after a successful load into the fresh shard; checksum gate with per-table reset and feed. Content equality is not decided.",
+         "go/types+go/ssa; io.Reader contract of the snapshot file; Pebble snapshot semantics"),
 }
 PENDING_REASON = "rules designed (DESIGN.md section 7), check not built yet"
 checks=[]; na=[]
